@@ -7,7 +7,8 @@
 //!  * tile-data preservation of `convert_wdt` / `convert_wdl_file` for all version pairs,
 //!  * `world_to_tile(tile_to_world(x,y)) == (x,y)` for all 4096 tiles.
 //!
-//! `c18 --repro coords` prints a stand-alone reproduction of the coordinate finding.
+//! `c18 --repro coords` prints a stand-alone reproduction of the coordinate finding;
+//! `c18 --repro autodetect` one of the (unjudged) observation that the auto-detecting WDL parser mislabels a file.
 mod walker;
 mod wdl;
 mod wdt;
@@ -16,7 +17,10 @@ use serde_json::{json, Value};
 use vcore::*;
 
 /// one case per tile
-struct Coords;
+struct Coords {
+    /// thorough: also a 15x15 lattice of interior points per tile
+    deep: bool,
+}
 const TILE: f64 = 533.33333; // docs/src/resources/coordinates.md, docs/src/formats/world-data/wdt.md
 impl Space for Coords {
     fn len(&self) -> u64 {
@@ -56,13 +60,28 @@ impl Space for Coords {
         if (mx, my) != (x, y) {
             r.viol("coords: world_to_tile(centre of tile) is not that tile (axis swap / scale / offset)", format!("tile ({x},{y}) centre ({cx},{cy}) -> ({mx},{my})"));
         }
+        if self.deep {
+            // every interior lattice point k/16 of the tile (k = 1..15 on both axes; >= 33 units away from every edge)
+            'o: for a in 1..16u32 {
+                for b in 1..16u32 {
+                    let (px, py) = ((rx - TILE * a as f64 / 16.0) as f32, (ry - TILE * b as f64 / 16.0) as f32);
+                    r.count("coords_interior_points", 1);
+                    if wow_wdt::world_to_tile(px, py) != (x, y) {
+                        r.viol("coords: world_to_tile(interior point of a tile) is not that tile (axis swap / scale / offset)", format!("tile ({x},{y}) point ({px},{py}) [{a}/16,{b}/16] -> {:?}", wow_wdt::world_to_tile(px, py)));
+                        break 'o;
+                    }
+                }
+            }
+        }
         r
     }
 }
 
+const THOROUGH_RULE: &str = " THOROUGH TIER BOUNDS (supersede the thorough remarks above). WDT versions Classic..Dragonflight (10); (version, MAID mode) = 31: 10 without MAID + {BfA, Shadowlands, Dragonflight} x 7 modes (8 sections+flag+header ids / 5 / 8 without flag / flag without chunk / 0 sections / 1 section / 9 sections). Object shapes = full product map type {terrain, WMO-only} x MWMO {absent,0,1,3 names} x MODF {absent,0,1,3 records} (32; the first 8 are the quick shapes). wdt_main = block 1: 31 x 8 quick shapes x 109 flag sets (none, 14 single bits, all, 2 alternating, 91 bit pairs) x 2 value modes x 14 grids; block 2: 31 x the 24 other shapes x 18 non-pair flag sets x 2 x 14. wdt_single = 4096 single tiles x 31 x 4 shapes. wdt_flags = all 65536 MPHD words x 10 versions x every MAID mode consistent with bit 0x200 (BfA: 2 modes when clear, 6 when set; other versions 1) x 2 object shapes consistent with bit 0. wdt_objects = 11 (version, MAID) x {terrain, WMO-only} x 19 name-list shapes (absent; 0; 1 name of 1/2/255/256/257/65535/65536/70001 bytes; 2; 3; 255/256/257/1000/4096/65536 names; duplicates) x 13 MODF counts (absent,0,1,2,3,255,256,257,1023,1024,1025,4096,65536). wdt_conv = 22 sources (10 versions + 3 MAID versions x 4 MAID modes) x 10 targets x [block 1: 8 shapes x 4 flag sets x 2 x 14 grids; block 2: 4 shapes x 128 flag sets (all subsets of the 6 bits the converter adds/removes x other bits all clear/all set) x 2 x 2 grids]; MAID ids must also survive between any two MAID versions. wdt_chain = 13 sources x 10 intermediate x 10 target versions x 8 shapes x 4 flag sets x 2 x 4 grids: build->write->read->convert->write->read->convert; MAIN entries (and MAID ids on all-MAID paths) equal the source after every step, every intermediate state round-trips, result agrees with the direct conversion in MAIN entries. Every WDT round trip also compares get_tile (flags, area id, has_adt) for all 4096 tiles and count_existing_tiles before write / after read. WDL versions Vanilla..Dragonflight + Latest (10). Model shapes: pre-Legion full product names {1,3} x MWID entries {0,n,n+2} x MODF {0,1,3} + empty (19); Legion+ full product {0,1,3}^4 of MLDD/MLDX/MLMD/MLMX record counts (81). wdl_main = 10 versions x 3 height modes x 4 hole modes x (11 sparse grids x full shape product + 3 dense grids x 6 quick shapes). wdl_single = 4096 tiles x 10 versions x 3 hole modes x 3 shapes. wdl_pairs = first tile from the corners + 16x16 asymmetric lattice + lattice (x+3y)%8==5 (about 770) x each of the 4095 other tiles, version Wotlk..Latest by first tile (8 cases per first tile). wdl_subsets = every state of a 9-tile universe (corners, 3 adjacent, 2 far; each tile absent / heights / heights+holes: 3^9, 2^9 in Vanilla) x 10 versions x 2 shapes. wdl_models = Legion+ (5 versions): record counts {0,1,2,3,255,256,257,1024}^4; pre-Legion (4 versions): 17 name-list shapes (as in wdt_objects) x MWID entries {0,n,n+1,1000} x MODF counts {0,1,2,3,255,256,257,1024,4096}; two tiles behind the lists. wdl_conv = 10x10 version pairs x 4 hole modes x (5 sparse grids x full shape product + 6 sparse grids x 6 quick shapes) + 3 dense grids x 2 shapes x 2 hole modes. wdl_chain = 10^3 version triples x 6 shapes x 4 hole modes x 3 grids (+ the 585-tile grid without models): build->write->parse->convert->write->parse->convert; heights (and hole masks on all-MAHO paths) equal the source after every step, every intermediate state round-trips, result agrees with the direct conversion in heights and (no record = no holes) hole masks, A->B->A returns the source tile data. Every WDL round trip also checks that no foreign chunk is written, one MAHO per tile with hole data, and that the parsed map_tile_offsets equal the MAOF table in the bytes. coords: additionally the 15x15 interior lattice points k/16 of every tile map back to that tile.";
+
 fn build(name: &str, _arg: &str, tier: Tier) -> Box<dyn Space> {
     match name {
-        "coords" => Box::new(Coords),
+        "coords" => Box::new(Coords { deep: tier == Tier::Thorough }),
         "wdt_main" => Box::new(wdt::WdtRoundtrip::main(tier)),
         "wdt_single" => Box::new(wdt::WdtRoundtrip::single(tier)),
         "wdt_flags" => Box::new(wdt::WdtRoundtrip::flags(tier)),
@@ -71,6 +90,12 @@ fn build(name: &str, _arg: &str, tier: Tier) -> Box<dyn Space> {
         "wdl_single" => Box::new(wdl::WdlRoundtrip::single(tier)),
         "wdl_pairs" => Box::new(wdl::WdlPairs::new(tier)),
         "wdl_conv" => Box::new(wdl::WdlConv::new(tier)),
+        // thorough only
+        "wdt_objects" => Box::new(wdt::WdtObjects::new(tier)),
+        "wdt_chain" => Box::new(wdt::WdtChain::new(tier)),
+        "wdl_subsets" => Box::new(wdl::WdlSubsets::new(tier)),
+        "wdl_models" => Box::new(wdl::WdlModels::new(tier)),
+        "wdl_chain" => Box::new(wdl::WdlChain::new(tier)),
         _ => panic!("space {name}"),
     }
 }
@@ -98,11 +123,36 @@ fn repro_coords() {
     println!("{bad} of 4096 tiles do not invert; per-axis indices that come back as index-1: {:?}", bad_axis);
 }
 
+/// observation `wdl_rewrite_of_autodetected_parse_differs` (counted, not judged): public API only
+fn repro_autodetect() {
+    use std::io::Cursor;
+    use wow_wdl::parser::WdlParser;
+    use wow_wdl::types::{HeightMapTile, WdlFile};
+    use wow_wdl::version::WdlVersion;
+    println!("// a WotLK-family WDL with WMO names and no MAHO chunk, read back with the default (auto-detecting) parser and written again");
+    let mut f = WdlFile::with_version(WdlVersion::Wotlk);
+    f.wmo_filenames.push("a.wmo".to_string());
+    f.wmo_indices.push(0);
+    f.heightmap_tiles.insert((1, 0), HeightMapTile::new());
+    f.map_tile_offsets[1] = 1;
+    let mut c = Cursor::new(Vec::new());
+    WdlParser::with_version(WdlVersion::Wotlk).write(&mut c, &f).unwrap();
+    let bytes1 = c.into_inner();
+    let p = WdlParser::new().parse(&mut Cursor::new(&bytes1)).unwrap();
+    println!("written as Wotlk: {} bytes; auto-detected version: {:?}; names parsed: {:?}", bytes1.len(), p.version, p.wmo_filenames);
+    let mut c = Cursor::new(Vec::new());
+    WdlParser::new().write(&mut c, &p).unwrap();
+    let bytes2 = c.into_inner();
+    let q = WdlParser::new().parse(&mut Cursor::new(&bytes2)).unwrap();
+    println!("second write: {} bytes; names after the second round: {:?}  (has_wmo_chunks({:?}) = {})", bytes2.len(), q.wmo_filenames, p.version, p.version.has_wmo_chunks());
+}
+
 fn main() {
     let args: Vec<String> = std::env::args().collect();
     if args.get(1).map(|s| s.as_str()) == Some("--repro") {
         match args.get(2).map(|s| s.as_str()) {
             Some("coords") | None => repro_coords(),
+            Some("autodetect") => repro_autodetect(),
             Some(o) => eprintln!("unknown repro {o}"),
         }
         return;
@@ -115,20 +165,62 @@ fn main() {
     c.assume("inputs are valid definitions: names are non-empty UTF-8 without NUL, no NaN floats, height vectors are 289+256 long, holes only on tiles with heights and only in versions with MAHO, WMO chunks only in Wotlk..Wod and with a non-empty name list when placements exist, ML chunks only in Legion, MPHD flags within the 16 named bits, MAID only in BfA");
     c.assume("conversion must preserve MAIN flags/area ids (WDT) and heights, and holes when both versions store them (WDL); MODF scale/unique id rewrites, added empty MAID and model-format conversions are not tile data; an Err from the converter counts as a refusal");
     c.assume("walker and layouts are taken from /repo/docs/src/formats/world-data/{wdt,wdl}.md and docs/src/resources/coordinates.md (tile size 533.33333, [y][x] row-major grids)");
-    let spaces = ["coords", "wdt_main", "wdt_single", "wdt_flags", "wdt_conv", "wdl_main", "wdl_single", "wdl_pairs", "wdl_conv"];
+    let mut spaces = vec!["coords", "wdt_main", "wdt_single", "wdt_flags", "wdt_conv", "wdl_main", "wdl_single", "wdl_pairs", "wdl_conv"];
+    if tier == Tier::Thorough {
+        spaces.extend(["wdt_objects", "wdt_chain", "wdl_subsets", "wdl_models", "wdl_chain"]);
+        c.rule.push_str(THOROUGH_RULE);
+        c.assume("thorough tier: the versions beyond the property's list (WDT Shadowlands/Dragonflight; WDL Bfa/Shadowlands/Dragonflight/Latest) are judged by the same oracles; for WDL `Latest` (the auto-detecting placeholder) the version field itself is not compared because the parser replaces it by the detected version");
+        c.assume("thorough tier: WDL MWID entry count and the MLDD/MLDX and MLMD/MLMX record counts are independent lists in the file format; definitions with unequal counts are valid inputs of the writer");
+        c.assume("thorough tier, chains: tile data must survive write->parse->convert->write->parse->convert (WDT: MAIN entries, and MAID ids when every version on the path has the chunk; WDL: heights, and hole masks when every version on the path stores them); the chained result must agree with the direct conversion in tile data, where a WDL tile without a hole record and a tile with the all-ones mask (the converter's own default) both mean 'no holes'; differences in header flags / model lists between the two paths are counted, not judged");
+    }
+    if let Ok(only) = std::env::var("C18_DEV_ONLY_SPACES") {
+        // development aid: restrict the run to some spaces (never set by ./check)
+        spaces.retain(|s| only.split(',').any(|o| o == *s));
+    }
     for s in spaces {
         c.run_space(s, "");
     }
-    c.extra_cov.insert(
-        "axes".into(),
-        json!({
-            "coords_tiles": 4096,
-            "wdt_versions": 8, "wdt_version_x_maid_modes": 12, "wdt_grid_patterns": 14, "wdt_single_tiles": 4096, "wdt_value_modes": 2,
-            "wdt_flag_sets_main": wdt::flagsets(tier == Tier::Thorough).len(), "wdt_flag_words_flags_space": tier.pick(138, 65536), "wdt_object_shapes": 8,
-            "wdt_conv_version_pairs": 72,
-            "wdl_versions": 6, "wdl_tile_patterns": 14, "wdl_single_tiles": 4096, "wdl_height_modes": 3, "wdl_hole_modes": 4, "wdl_model_shapes": 6,
-            "wdl_pairs_first_tiles": tier.pick(8, 260), "wdl_pairs_second_tiles": 4095, "wdl_conv_version_pairs": 36
-        }),
-    );
+    let mut axes = json!({
+        "coords_tiles": 4096,
+        "wdt_versions": 8, "wdt_version_x_maid_modes": 12, "wdt_grid_patterns": 14, "wdt_single_tiles": 4096, "wdt_value_modes": 2,
+        "wdt_flag_sets_main": wdt::flagsets(tier == Tier::Thorough).len(), "wdt_flag_words_flags_space": tier.pick(138, 65536), "wdt_object_shapes": 8,
+        "wdt_conv_version_pairs": 72,
+        "wdl_versions": 6, "wdl_tile_patterns": 14, "wdl_single_tiles": 4096, "wdl_height_modes": 3, "wdl_hole_modes": 4, "wdl_model_shapes": 6,
+        "wdl_pairs_first_tiles": tier.pick(8, 260), "wdl_pairs_second_tiles": 4095, "wdl_conv_version_pairs": 36
+    });
+    if tier == Tier::Thorough {
+        let a = axes.as_object_mut().unwrap();
+        for (k, v) in [
+            ("wdt_versions", json!(wdt::NV)),
+            ("wdt_maid_modes", json!(wdt::MAID_MODES.len())),
+            ("wdt_version_x_maid_modes", json!(wdt::vm_list_thorough().len())),
+            ("wdt_object_shapes", json!(wdt::objs().len())),
+            ("wdt_main_block1", json!({"version_x_maid": 31, "object_shapes": 8, "flag_sets": 109, "value_modes": 2, "grids": 14})),
+            ("wdt_main_block2", json!({"version_x_maid": 31, "object_shapes": 24, "flag_sets": 18, "value_modes": 2, "grids": 14})),
+            ("wdt_single", json!({"tiles": 4096, "version_x_maid": 31, "object_shapes": 4})),
+            ("wdt_flags", json!({"flag_words": 65536, "versions": 10, "version_x_maid_per_word_bit9_clear": 11, "version_x_maid_per_word_bit9_set": 15, "object_shapes_per_word": 2})),
+            ("wdt_conv_version_pairs", json!(100)),
+            ("wdt_conv_sources", json!(22)),
+            ("wdt_conv_block1", json!({"sources": 22, "targets": 10, "object_shapes": 8, "flag_sets": 4, "value_modes": 2, "grids": 14})),
+            ("wdt_conv_block2", json!({"sources": 22, "targets": 10, "object_shapes": 4, "flag_sets": wdt::conv_flagsets().len(), "value_modes": 2, "grids": 2})),
+            ("wdt_chain", json!({"sources": 13, "via": 10, "targets": 10, "object_shapes": 8, "flag_sets": 4, "value_modes": 2, "grids": 4})),
+            ("wdt_objects", json!({"version_x_maid": 11, "map_types": 2, "name_list_shapes": wdt::NAME_SHAPES.len(), "modf_record_counts": wdt::MODF_COUNTS.len()})),
+            ("wdl_versions", json!(wdl::NV)),
+            ("wdl_model_shapes", json!({"pre_legion_names_x_mwid_x_modf": wdl::wmo_shapes().len(), "legion_plus_mldd_x_mldx_x_mlmd_x_mlmx": wdl::ml_shapes().len()})),
+            ("wdl_main", json!({"versions": 10, "sparse_grids": 11, "dense_grids": 3, "height_modes": 3, "hole_modes": 4, "shapes_on_sparse_grids": "19 / 81", "shapes_on_dense_grids": 6})),
+            ("wdl_single", json!({"tiles": 4096, "versions": 10, "hole_modes": 3, "shapes": 3})),
+            ("wdl_pairs_first_tiles", json!(wdl::WdlPairs::new(tier).first_count())),
+            ("wdl_pairs_versions", json!(9)),
+            ("wdl_subsets", json!({"universe_tiles": wdl::UNIVERSE.len(), "states_per_tile": 3, "states": 19683, "versions": 10, "shapes": 2})),
+            ("wdl_models", json!({"ml_versions": 5, "ml_record_counts_per_chunk": wdl::BIG_COUNTS.len(), "ml_chunks": 4, "wmo_versions": 4, "name_list_shapes": wdt::NAME_SHAPES.len() - 2, "mwid_modes": wdl::IDX_MODES.len(), "modf_record_counts": wdl::PLC_COUNTS.len()})),
+            ("wdl_conv_version_pairs", json!(100)),
+            ("wdl_conv", json!({"version_pairs": 100, "hole_modes_sparse": 4, "sparse_grids_with_full_shape_product": wdl::CONV_FULL_SHAPE_GRIDS.len(), "sparse_grids_with_6_shapes": 6, "dense_grids": 3, "shapes_dense": 2, "hole_modes_dense": 2})),
+            ("wdl_chain", json!({"version_triples": 1000, "shapes": 6, "hole_modes": 4, "grids": 4})),
+            ("coords_interior_points_per_tile", json!(225)),
+        ] {
+            a.insert(k.to_string(), v);
+        }
+    }
+    c.extra_cov.insert("axes".into(), axes);
     c.finish();
 }
